@@ -178,7 +178,7 @@ func (f Int[T]) Round() Int[T] {
 	rem := f - value
 	if rem >= one/2 {
 		value += one
-	} else if rem < -one/2 {
+	} else if rem <= -one/2 {
 		value -= one
 	}
 	return value
